@@ -119,10 +119,16 @@ def run_c09_reuse(ctx, binary=None):
     rscripts += pl.expand_repeat([dict(pl.reuse_cancel_scenarios(T)["cancel-then-next-before-late-reply"], repeat=3),
                                   pl.reuse_cancel_scenarios(T)["late-reply-then-reuse"]])
     pbeh = pl.gen_behaviours(ctx, "pipeline", "LazyPipeline_gen_eager.cfg", n, 120)
-    pscripts = [pl.beh_to_script("pipeline", b, "tlc-%d" % i) for i, b in enumerate(pbeh)]
+    # capacity never leaks through calls whose context has already ended; the dial queue limit holds after a
+    # cancellation while dialing; refused early callers are retried (scenarios first: they are the cheap ones)
+    pscripts = pl.expand_repeat([s for s in pl.pipeline_scenarios(T) if s["name"] in (
+        "precancelled-on-established", "precancelled-while-dialing", "queue-limit-after-cancel-while-dialing",
+        "dead-on-arrival-with-early-callers")])
+    pscripts += [pl.beh_to_script("pipeline", b, "tlc-%d" % i) for i, b in enumerate(pbeh)]
     pbeh1 = pl.gen_behaviours(ctx, "pipeline", "LazyPipeline_gen_cap1.cfg", n // 2, 120,
                               overrides={"Eager": "TRUE"})
-    pscripts1 = [dict(pl.beh_to_script("pipeline", b, "tlc-cap1-%d" % i), cap=1) for i, b in enumerate(pbeh1)]
+    pscripts1 = pl.expand_repeat(pl.pipeline_cap1_scenarios(T)) + \
+        [dict(pl.beh_to_script("pipeline", b, "tlc-cap1-%d" % i), cap=1) for i, b in enumerate(pbeh1)]
     rrecs, _ = pl.run_scripts(ctx, "reuse", rscripts, binary, label="reuse C09")
     precs, _ = pl.run_scripts(ctx, "pipeline", pscripts, binary, label="lazy C09")
     precs1, _ = pl.run_scripts(ctx, "pipeline", pscripts1, binary, label="lazy C09 (capacity 1)", trace_cfg="LazyPipeline_Trace_cap1.cfg")
